@@ -1,5 +1,8 @@
 //! mc — bounded exhaustive explorers for the adlt properties (see /verif/DESIGN.md)
 #![allow(clippy::type_complexity)]
+mod c01;
+mod c02;
+mod c04;
 mod core;
 mod lc;
 
@@ -10,6 +13,9 @@ static GLOBAL: crate::core::alloc::CachingAlloc = crate::core::alloc::CachingAll
 
 fn prop_by_id(id: &str) -> Option<Box<dyn Prop>> {
     Some(match id {
+        "C01" => Box::new(c01::C01),
+        "C02" => Box::new(c02::C02),
+        "C04" => Box::new(c04::C04),
         "C05" => Box::new(lc::LcProp(lc::Which::C05)),
         "C06" => Box::new(lc::LcProp(lc::Which::C06)),
         "C07" => Box::new(lc::LcProp(lc::Which::C07)),
